@@ -1,4 +1,5 @@
 import AFModel.Comp
+import AFModel.Fitness
 
 /-! `Float` instance of the arithmetic used by compound priors (Python `float` semantics).
 `//` and `%` follow CPython's `float_divmod`; `fmod` is computed as `x - y*trunc(x/y)`
@@ -79,5 +80,26 @@ def floatOps : Ops Float where
     | .abs => a.abs
     | .log => a.log
     | .log10 => a.log10
+
+end AF
+
+namespace AF
+
+def floatFom : FomOps Float where
+  add := fun a b => a + b
+  mulNeg2 := fun a => a * (-2.0)
+  zero := 0.0
+  isNaN := fun a => a.isNaN
+
+/-- `Prior.log_prior_from_value` per prior family, with the code's float expressions -/
+def logPriorFloat (kind : String) (mean sigma : Float) (value : Float) : Float :=
+  match kind with
+  | "Uniform" => 0.0
+  | "LogUniform" => 1.0 / value
+  | "Gaussian" => (Float.pow (value - mean) 2.0) / (2 * Float.pow sigma 2.0)
+  | "LogGaussian" =>
+      if value ≤ 0 then -(1.0 / 0.0)
+      else (Float.pow (value.log - mean) 2.0) / (2 * Float.pow sigma 2.0) - value.log
+  | _ => 0.0 / 0.0
 
 end AF
